@@ -85,6 +85,17 @@ def _exc_matches(raised_name, handler_names):
     return False
 
 
+_RECORD_TYPES = {}
+
+
+def _record_type(name, fields):
+    import collections
+    key = (name, fields)
+    if key not in _RECORD_TYPES:
+        _RECORD_TYPES[key] = collections.namedtuple(name, list(fields))
+    return _RECORD_TYPES[key]
+
+
 def instantiate(repo, module, cls, args=(), kwargs=None, depth=0):
     obj = Obj(module, cls)
     for st in cls.body:
@@ -345,6 +356,8 @@ class _Interp(object):
                 if n.attr in base.attrs:
                     return base.attrs[n.attr]
                 return _class_member(self.repo, base, n.attr)
+            if isinstance(base, tuple) and hasattr(base, "_fields") and n.attr in base._fields:
+                return getattr(base, n.attr)
             if isinstance(base, _SplitResult) and n.attr in ("scheme", "netloc", "path", "query", "fragment", "hostname", "port", "username", "password"):
                 try:
                     return getattr(base, n.attr)
@@ -373,12 +386,7 @@ class _Interp(object):
     def call(self, n):
         f = n.func
         if isinstance(f, ast.Name) and f.id == "isinstance" and f.id not in self.env and len(n.args) == 2:
-            # only against the handful of types the helpers use (the type expression is not evaluated)
-            tname = unparse(n.args[1])
-            table = _ISINSTANCE
-            if tname in table:
-                return isinstance(self.expr(n.args[0]), table[tname])
-            raise Unknown("isinstance against %s" % tname)
+            return self.isinstance_(self.expr(n.args[0]), n.args[1])
         args = [self.expr(a) for a in n.args]
         kwargs = {kw.arg: self.expr(kw.value) for kw in n.keywords}
         if isinstance(f, ast.Attribute):
@@ -456,13 +464,6 @@ class _Interp(object):
                 return list(reversed(list(args[0])))
             if f.id == "iter":
                 return list(args[0])
-            if f.id == "isinstance":
-                # only against the handful of types the helpers use
-                tname = unparse(n.args[1]) if len(n.args) > 1 else ""
-                table = {"str": str, "string_type": str, "dict": dict, "list": list, "tuple": tuple, "bytes": bytes, "Iterable": (list, tuple, set, frozenset, dict, str)}
-                if tname in table:
-                    return isinstance(args[0], table[tname])
-                raise Unknown("isinstance against %s" % tname)
             if f.id == "range":
                 return list(range(*args))
             if f.id == "next" and args and isinstance(args[0], list):
@@ -503,6 +504,12 @@ class _Interp(object):
                     pv = self.repo.const(ref.module, ref.qualname.rpartition(".")[2]) if ref.qualname.rpartition(".")[0] == ref.module.name else self.repo.const(self.module, f.id)
                 except Unknown:
                     pv = None
+                if isinstance(pv, tuple) and len(pv) == 3 and pv[0] == "namedtuple":
+                    # a module-level record type: built with the standard collections.namedtuple
+                    try:
+                        return _record_type(pv[1], tuple(pv[2]))(*args, **kwargs)
+                    except TypeError:
+                        raise Raised("TypeError")
                 if isinstance(pv, Partial) and isinstance(pv.func, FuncRef) and pv.func.node is not None:
                     kw = dict(pv.kwargs)
                     kw.update(kwargs)
@@ -550,6 +557,53 @@ def _regex_method(self, base, name, args, kwargs):
 
 
 _Interp.regex_method = _regex_method
+
+
+def _isinstance(self, v, tnode):
+    """isinstance against the handful of types ural's helpers test (the type expression is resolved, not run)"""
+    nodes = tnode.elts if isinstance(tnode, ast.Tuple) else [tnode]
+    for tn in nodes:
+        tname = unparse(tn)
+        if tname in _ISINSTANCE:
+            if isinstance(v, _ISINSTANCE[tname]):
+                return True
+            continue
+        try:
+            tv = self.repo.ceval(self.module, tn)
+        except Unknown:
+            tv = None
+        if isinstance(tv, tuple) and len(tv) == 3 and tv[0] == "namedtuple":
+            if isinstance(v, _record_type(tv[1], tuple(tv[2]))):
+                return True
+            continue
+        ref = self.repo.resolve(self.module, tn.id) if isinstance(tn, ast.Name) else None
+        if ref is not None and isinstance(ref.node, ast.ClassDef):
+            if isinstance(v, Obj) and _class_chain_has(self.repo, v, ref.node):
+                return True
+            continue
+        raise Unknown("isinstance against %s" % tname)
+    return False
+
+
+def _class_chain_has(repo, obj, cls):
+    seen = set()
+    stack = [(obj.module, obj.cls)]
+    while stack:
+        m, c = stack.pop()
+        if c is cls or (c.name == cls.name and c.lineno == cls.lineno):
+            return True
+        if id(c) in seen:
+            continue
+        seen.add(id(c))
+        for b in c.bases:
+            if isinstance(b, ast.Name):
+                r = repo.resolve(m, b.id)
+                if r is not None and isinstance(r.node, ast.ClassDef):
+                    stack.append((r.module, r.node))
+    return False
+
+
+_Interp.isinstance_ = _isinstance
 
 
 def _call_value(self, v, args, kwargs):
